@@ -149,6 +149,8 @@ def run_shard(ctx, spec):
                     pool.append(s)
                     for m in relang.mutants(s, full, rnd, nmut):
                         ask(m)
+                    for m in relang.lookalikes(s, rnd, 2):
+                        ask(m)
         # cross-family splices
         others = []
         for fam in fams:
